@@ -32,6 +32,9 @@ void Thread::join() {
     _impl->SetJoiningFiber(fault::Scheduler::Current());
     fault::Scheduler::Suspend();
   }
+#ifdef YACLIB_VERIF
+  verif::Event(verif::kJoin, _impl, 0, _impl->GetId(), 0);
+#endif
   AfterJoinOrDetach();
 }
 
